@@ -1,2 +1,29 @@
-From CubedV Require Import Model.Util.
-Lemma placeholder_c17 : sumn [1;2] = 3. Proof. reflexivity. Qed.
+(* C17: unsupported requests are refused up front; accepted plans do not fail mid-run. *)
+
+From CubedV Require Import Model.Util Model.Keys Model.Geometry Model.OpsKF Model.ShapeSem Proofs.GeometryProofs Proofs.OpsKFProofs Proofs.ShapeSemProofs.
+From Coq Require Import Permutation.
+
+
+Theorem C17_scan_accepts_spec : forall nb, 0 < nb ->
+  (scan_accepts nb = true <-> exists e m, 1 <= m /\ m <= 5 /\ nb = m * 5 ^ e).
+Proof. exact (scan_accepts_spec). Qed.
+Print Assumptions C17_scan_accepts_spec.
+
+Theorem C17_scan_refuted :
+  scan_accepts 6 = false /\ scan_accepts 7 = false /\ scan_accepts 26 = false /\ scan_accepts 30 = false.
+Proof. exact (scan_refuted). Qed.
+Print Assumptions C17_scan_refuted.
+
+Theorem C17_pr_keep_all_truthful : forall k nb, 0 < k -> 0 < nb ->
+  ((forall bi, bi < pr_numblocks k nb -> pr_actual_keep_all k nb bi = pr_declared (Nat.min k nb))
+   <-> (nb <= k \/ nb mod k = 0)).
+Proof. exact (pr_keep_all_truthful). Qed.
+Print Assumptions C17_pr_keep_all_truthful.
+
+Theorem C17_is_permutation_spec : forall axes,
+  is_permutation axes = true <-> Permutation axes (seq 0 (length axes)).
+Proof. exact (is_permutation_spec). Qed.
+Print Assumptions C17_is_permutation_spec.
+
+Example C17_acceptance_examples : scan_accepts 25 = true /\ scan_accepts 30 = false /\ is_permutation [0;0] = false /\ tsqr_accepts [4;4;1] 4 = false /\ stack_accepts [[4;3];[2;3]] = false.
+Proof. repeat split; reflexivity. Qed.
